@@ -45,6 +45,7 @@ def effect_nodes(ctx, f, cfg, summ, exclude_calls=()):
 
 
 def run(ctx):
+    ctx.rule("R02.e", "Event model: Event.__set__ interpreted abstractly on mode (set-reset / set / reset) x the assignment proper succeeds / is refused / a watcher raises: in set-reset the Event is assigned and then reset whatever happens, in set (held so by update/trigger while it is delivered) it is assigned and NOT reset, in reset it is only reset", floor=1)
     ctx.rule("R02.a", "in Parameter.__set__ no observable effect (value store, link install/drop, task cancel, "
                       "dependency rebinding, watcher dispatch -- directly or through a callee) can precede a point "
                       "where the setter may still reject (explicit raise, self._validate, self.set_hook)", floor=6)
@@ -56,6 +57,9 @@ def run(ctx):
                       "the exception propagates and no further assignment, update or dispatch is made on the way out (a 'rollback' through the setter would drop links and notify watchers)", floor=1)
     ctx.rule("R02.x", "class route, first set on a subclass: the per-class copy of an inherited Parameter that the metaclass installs before calling __set__ does not outlive a rejection -- "
                       "the exceptional exit of that __set__ call removes the copy again (otherwise the subclass silently stops following later changes of the ancestor's default)", floor=1)
+    ctx.rule("R02.y", "validators change nothing: no function reachable from any Parameter type's _validate stores into a slot of the Parameter (self.<slot> = ..., in-place mutation of "
+                      "self.<slot>) or calls a state-changing method of it (update / compute_default / _update_state); frozen exclusion: Selector._ensure_value_is_in_objects, the documented "
+                      "auto-append of check_on_set=False (known finding R18.f)", floor=30)
     ctx.rule("R02.m", "setter model: Parameter.__set__ interpreted abstractly on every combination (576) of route x constant/readonly x validation outcome x identity x reference mode x watchers x batching agrees with the specification of this property (see checks/setter_model.py)", floor=1)
     ctx.rule("R02.u", "update model: Parameters._update interpreted abstractly (entry batching flag x key orders incl. an Event key x a rejected or unknown key at every position x a value identical to the current one, 60 cases): flag restored, flush exactly once iff outermost and after the restore, keys applied in order up to the failing one, Event mode and reset, complete previous-values mapping", floor=1)
     ctx.not_decided += ["that callees are effect-free before their own raises (Composite._post_setter assigns constituents one by one)",
@@ -161,6 +165,46 @@ def run(ctx):
         else:
             ctx.ok("R02.c", ctx.hier.resolve(q, "_validate"), None, "%s: %d validator function(s), none notifies" % (q.rsplit(".", 1)[-1], len(clos)))
 
+    # R02.y
+    STATE_METHODS = {"update", "compute_default", "_update_state", "_on_set"}
+    MUT = {"append", "extend", "insert", "pop", "remove", "clear", "update", "setdefault", "__setitem__", "sort"}
+    PURE_EXCLUDED = {"_ensure_value_is_in_objects"}
+    STORE_EXCLUDED = {("param.parameters.DataFrame._validate", "ordered"):
+                      "DataFrame normalises its declared `ordered` option (None -> whether `columns` is a list) the first time it validates; the result does not depend on the offered value"}
+    for q in ctx.hier.parameter_classes():
+        if ctx.hier.resolve(q, "_validate") is None:
+            continue
+        bad = None
+        clos = ctx.hier.self_closure(q, "_validate")
+        for g in clos:
+            if g.name in PURE_EXCLUDED:
+                continue
+            selfn = g.params[0] if g.params else "self"
+            for st in ast.walk(g.node):
+                if isinstance(st, (ast.Assign, ast.AugAssign)):
+                    for t in (st.targets if isinstance(st, ast.Assign) else [st.target]):
+                        base = t.value if isinstance(t, ast.Subscript) else t
+                        if isinstance(base, ast.Attribute) and isinstance(base.value, ast.Name) and base.value.id == selfn:
+                            if (g.qualname, base.attr) in STORE_EXCLUDED:
+                                ctx.info("R02.y", g, st, "frozen exclusion: %s" % STORE_EXCLUDED[(g.qualname, base.attr)])
+                                continue
+                            bad = bad or (g, st, "stores into `%s`" % norm(base))
+                if isinstance(st, ast.Call) and isinstance(st.func, ast.Attribute):
+                    recv = st.func.value
+                    if isinstance(recv, ast.Name) and recv.id == selfn and st.func.attr in STATE_METHODS and st.func.attr not in PURE_EXCLUDED:
+                        bad = bad or (g, st, "calls self.%s(), which rewrites the Parameter's own slots" % st.func.attr)
+                    if st.func.attr in MUT and isinstance(recv, ast.Attribute) and isinstance(recv.value, ast.Name) and recv.value.id == selfn:
+                        bad = bad or (g, st, "mutates `%s` in place" % norm(recv))
+        if bad:
+            g, node, how = bad
+            ctx.fail("R02.y", g, node, "%s (reached from %s._validate) %s: merely offering a value -- which may then be rejected -- changes the Parameter (default, objects, ...) and with it "
+                                       "what the class and every instance see, without any watcher being told" % (g.qualname.rsplit(".", 2)[-2] + "." + g.name, q.rsplit(".", 1)[-1], how),
+                     key="%s::validator-changes-state" % g.qualname, input="P.f = <file that does not exist> (rejected) changes P.f when the selected file was removed from disk meanwhile")
+        else:
+            ctx.ok("R02.y", ctx.hier.resolve(q, "_validate"), None, "%s: %d validator function(s), none changes the Parameter" % (q.rsplit(".", 1)[-1], len(clos)))
+
+    from checks.shared import event_model
+    event_model(ctx, "R02.e", "C02")
     # model-level rule, run last (see DESIGN §10)
     from checks import setter_model
     setter_model.report(ctx, "C02", "R02.m")
